@@ -229,7 +229,7 @@ def shrink_candidates(scn):
 
 def describe():
     return {
-        'rule': 'lock-step scenarios: W-step = one dispatch slot (of 1792) executed from a generated state on all replicas; W-prog = generated program run event by event with scheduler-chosen interrupt offers. Distinct = distinct (scenario kind, slot, 48K/128K).',
+        'rule': 'table comparisons (exhaust.py): every 8-bit table entry executed on py/c and pycmio/ccmio and compared (first 314 scenarios); batch: run(start, stop, interrupts) on all replicas; tool: trace.main with and without --python; lock-step scenarios: W-step = one dispatch slot (of 1792) executed from a generated state on all replicas; W-prog = generated program run event by event with scheduler-chosen interrupt offers. Distinct = distinct (scenario kind, slot, 48K/128K).',
         'assumptions': ['replicas are reset in place between scenarios (128K C replicas are rebuilt)', 'MEMPTR is compared only within the contended pair'],
         'components': {'real': ['Simulator', 'Simulator(fast_djnz, fast_ldir)', 'CSimulator', 'CMIOSimulator', 'CCMIOSimulator', 'pagingtracer.Memory', 'PagingTracer.write_port'],
                        'harness': ['World tracer (pre-drawn port reads)', 'state/program generators']},
